@@ -324,3 +324,8 @@ BOUNDS = {
 }
 OUTSIDE = ["lengths above the bound", "awaitable items that are themselves async iterables"]
 NONTRIVIAL_RULE = ">=2 items and >=1 item consumed (apply: >=2 arguments)"
+
+MANIFEST = {
+    "text": 'Symbolic shape selectors, lengths, consumer steps, failing positions and argument splits for any_iter / await_each / apply / sync; items by identity, await order and laziness by log. Nothing is claimed outside the bounds listed in the evidence file.',
+    "note": 'Trusted: CrossHair 0.0.110 (with short-circuiting off and a refined callable() model), z3 5.1.0, the harness oracles. -',
+}
